@@ -96,6 +96,11 @@ class KickUni(Universe):
 class SymFalsyVert(Vertex):
     def __bool__(self):
         return False
+class FalsyUni(Universe):
+    """a user universe class whose truth value is False although it has members (e.g. a `__len__` counting something else): whether a
+    universe was given is `is not None`, never its truth value"""
+    def __len__(self):
+        return 0
 class EqVert(Vertex):
     """a user vertex class with value equality: two distinct vertices may compare (and hash) equal"""
     def __init__(self, key=None, **kw):
